@@ -33,6 +33,11 @@ CHECKS = {
             "Every statement history up to the depth bound followed by a fixed query battery is executed on the memory engine and on each disk layout; outcome classes and results must agree statement by statement.",
             "Bounded: depth 3 (quick) / 4 (thorough), 3 table kinds, 2-5 disk layouts; error classes compared, not messages.",
             "DESIGN.md §4 C05"),
+    "C06": ("E1-small-scope", "exploration",
+            "exhaustive small-scope enumeration of value sequences x encodings x block sizes x start rows x read/skip scripts on the real column builders and iterators, slice-arithmetic oracle",
+            "Every array up to the length bound over a 3-value domain (+NULL) and six fixed long patterns is encoded with every type/nullability/encoding/block size and read back from every start row under every read/skip script up to the script bound; every returned (row id, batch) must equal the corresponding slice of the written sequence and nothing may be lost.",
+            "Bounded: array length <= 4 (quick) / 6 (thorough), scripts of <= 2 / 3 actions + drain, 3-5 block sizes, 11 types; column level (one-column hook); vectors excluded; empty columns excluded.",
+            "DESIGN.md §4 C06"),
     "C07": ("E2-history-explorer", "model_checking",
             "bounded exhaustive exploration of insert/delete/compact/reopen histories on the real engine vs a plain multiset model, checked after every step",
             "All operation sequences of the depth bound over overlapping insert batches, predicate deletes, forced compaction and reopen are executed; after every step the table must equal the model, DML counts must match, and the final ordered scan must be sorted.",
